@@ -17,7 +17,7 @@ LEVEL_TEXT = ("Static structural proof of necessary conditions: (R17.1/R17.2) al
               "the validator call with its raise dominates dispatcher construction; (R17.5) every registered class defines "
               "PARAMS, do_op and validate_input_data; (R17.6) in the dispatcher loop each do_op is bracketed by the "
               "n/a->NaN and NaN->n/a conversions. What each operation computes is NOT decided.")
-LEVEL_EXTRA = ''
+LEVEL_EXTRA = 'Added after the seeded evaluation: (R17.3) optional keys of nested item parameters are not subscripted unguarded.'
 
 NAMED = ["remove_rows", "remove_columns", "rename_columns", "reorder_columns", "factor_column", "remap_columns",
          "merge_consecutive", "split_rows"]
